@@ -12,7 +12,7 @@ that default computations do not fail; `C10_fresh_partial` / `C10_isolated`
 assume copy-promising defaults (`Good`), which the pinned tree does not provide
 for a mutable default overridden by value in a subclass (finding F9).
 -/
-import TraitsVerif.Lemmas.AttrIso
+import TraitsVerif.Lemmas.AttrReset
 namespace TraitsVerif.Props.C10
 open TraitsVerif TraitsVerif.Model.Attr
 
@@ -183,6 +183,25 @@ theorem C10_default_raises (E : Env) (t : TraitCore) (s : OSt) (e : Exc)
   · intro hp
     rw [h1]
     exact h2 hp _ rfl
+
+/-! ### Reset -/
+
+/-- `del obj.name` / `reset_traits` of an assigned attribute while a notifier list exists (any
+default kind, any handler mix, any subset of raising handlers under the non-re-raising
+exception handlers, no `post_setattr` hook): the default is computed exactly once (`c` is
+the context `default_value_for` leaves), it is STORED, and the object stored — the one
+every later read returns (`C10_stable_read`) — is the very object each handler is told as
+`new`, with the deleted value as `old`.  (A reset re-arms the default: `C10_once` counts per
+reset, which is why `del` is outside its histories.) -/
+theorem C10_reset_default {E : Env} (q : Quiet E) (t : TraitCore) (s : OSt) (old v : Id) (c : Ctx)
+    (hk : t.kind = .trait) (hp : t.post = none) (hs : s.slot = some old) (hn : s.noNotify = false)
+    (hex : (s.tn.isSome || s.on.isSome) = true)
+    (hd : defaultValueFor E t s.self s.name s.ctx = (.ok v, c)) :
+    (Model.Attr.step E t s .del).1 = {}
+    ∧ (Model.Attr.step E t s .del).2.slot = some v
+    ∧ (Model.Attr.step E t s .del).2.ctx.fcalls = c.fcalls
+    ∧ ∀ x ∈ (Model.Attr.step E t s .del).2.ctx.log.drop s.ctx.log.length, x.old = old ∧ x.new = v :=
+  reset_default q t s old v c hk hp hs hn hex hd
 
 /-! ### Silent -/
 
@@ -432,6 +451,17 @@ example :
     ∧ surfaced { exEnvR with warnError := true } .attributeError = .other
     ∧ surfaced exEnvR .attributeError = .attributeError := by
   refine ⟨by rfl, Or.inl rfl, by decide, by decide⟩
+
+/-- Non-vacuity of `C10_reset_default` on the world model (factory default, static handler 0):
+assign, reset, read twice — the reset tells the handler the fresh object 11, which is what is
+stored and what both later reads return; the factory ran once. -/
+example :
+    ((World.runTrace exEnvF exWorldF [.new 0, .set 0 0 4, .del 0 0, .get 0 0, .get 0 0]).map
+        (fun r => (r.1.val, r.2.insts.map (fun o => o.dict), r.2.ctx.log.length, r.2.ctx.fcalls.length))
+      = [(some 10, [[]], 0, 0), (none, [[(0, 4)]], 1, 1), (none, [[(0, 12)]], 2, 2),
+         (some 12, [[(0, 12)]], 2, 2), (some 12, [[(0, 12)]], 2, 2)])
+    ∧ (World.run exEnvF exWorldF [.new 0, .set 0 0 4, .del 0 0]).ctx.log.getLast? = some ⟨10, 0, 4, 12⟩ := by
+  refine ⟨by rfl, by rfl⟩
 
 /-- What `buildClass` produces for the subclass `x = [5]` (object 11) of `exBase`:
 a CONSTANT default holding object 11 itself. -/
